@@ -19,7 +19,14 @@ RULE = ('tie: random documents with 1-5 formula columns from the grammar n | $X 
         'programs without try/except, each replayed in fresh engines under k random permutations and compared with the '
         'engine\'s own order on every table and on the multiset of stored actions after every bundle; (c) programs with '
         'try/except on a cycle (known finding).')
-TRUSTED = ['Model/Sched.v is hand-written; tied to engine.py on every run by replaying the recorded evaluation traces '
+TRUSTED = ['harness/sk2v.py (fail-closed translator, rename-invariant): on every run the sort key/reverse of '
+           'Engine._make_sorted_work_items, the pop and the OrderError handler of _update_loop, the row-loop guards, cycle flag, '
+           'OrderError handling and changes acquisition of _recompute_step, the step order of _use_node, the cycle value of '
+           '_recompute_one_cell and the error branches of BaseColumn.get_cell_value are regenerated into coq/gen/Sched_gen.v and '
+           'proved pointwise equal to Model/SchedCode.v (Proofs/Sched_bridge.v); validated each run by executing the source '
+           'fragments (96 row-loop combinations, 8 get_cell_value combinations, observed work-item orders); the rest of those '
+           'functions and _recompute/_pre_update/_post_update/_bring_all_up_to_date are pinned by AST hash',
+           'Model/Sched.v is hand-written; tied to engine.py on every run by replaying the recorded evaluation traces '
            '(transition by transition, dirty set and lock set at every _recompute_step entry, final values) in Coq; in '
            'addition the modelled deterministic engine strategy is compared with each recorded trace (informational: '
            'exact except where the engine\'s row iteration skips a row because nested calls shrink the set it iterates)',
